@@ -6,6 +6,7 @@ import (
 	"crypto/sha512"
 	"fmt"
 	"go/token"
+	"runtime"
 	"go/types"
 	"strings"
 
@@ -140,6 +141,28 @@ func zeroResults(fn *ssa.Function) value {
 	return t
 }
 
+// callModel runs a host-side model.  A host run-time error raised by the model itself (not by
+// target code it called back into) is an engine defect, never a panic of the program under test.
+func (i *interpreter) callModel(ent *icEntry, fr *frame, fn *ssa.Function, args []value) value {
+	ps := i.ps
+	defer func() {
+		if ps.panicActive {
+			return
+		}
+		if r := recover(); r != nil {
+			if re, ok := r.(runtime.Error); ok {
+				if _, mine := re.(runtimeErr); !mine {
+					buf := make([]byte, 2048)
+					buf = buf[:runtime.Stack(buf, false)]
+					panic(fmt.Sprintf("engine: host run-time error inside the model of %s: %v\n%s", ent.name, re, buf))
+				}
+			}
+			panic(r)
+		}
+	}()
+	return ent.f(i, fr, fn, args)
+}
+
 func (i *interpreter) intercept(fr *frame, fn *ssa.Function, args []value) (value, bool) {
 	ent := i.eng.classify(fn)
 	ps := i.ps
@@ -153,7 +176,7 @@ func (i *interpreter) intercept(fr *frame, fn *ssa.Function, args []value) (valu
 		if fr.caller != nil {
 			fr.cur = fr.caller.cur
 		}
-		r := ent.f(i, fr, fn, args)
+		r := i.callModel(ent, fr, fn, args)
 		if _, nh := r.(notHandled); nh {
 			if fn.Blocks == nil {
 				i.abort(outUnsupported, "no code for function %s", ent.name)
